@@ -1,0 +1,5 @@
+//go:build !verif
+
+package parser
+
+func verifTrace(p *parser, kind string, a, b int) {}
